@@ -45,8 +45,18 @@ PairNodes == {n \in Visible \ IntNodes : ~(st.def[n].k = "mapref" /\ st.def[n].f
 NumVars == Cardinality({n \in Nodes : st.def[n].k = "var"})
 Creating == st.n < MaxNodes /\ (Late \/ st.no = 0)
 
-Do(a, s) == /\ st' = Settle(HoldFor(a, ApiClearLogs(s)))
-            /\ hist' = Append(hist, a)
+\* every API action is followed by the reads the reference predicts at that point (C07, C10)
+ReadsOf(s) == [a |-> "expect",
+               reads |-> [o \in 1..s.no |-> IF s.ostate[o] = "inuse" /\ ~ExactCone(s, s.onode[o])
+                                             THEN <<"skip", "">> ELSE RefReadS(s, o)],
+               rets |-> s.retLog]
+\* (s is the result of the action applied to st; only what the action itself returned is kept)
+OnlyNewRets(s) == IF Ok(s) THEN [s EXCEPT !.retLog = SubSeq(@, Len(st.retLog) + 1, Len(@))] ELSE s
+Do(a, s) == /\ st' = Settle(HoldFor(a, OnlyNewRets(s)))
+            /\ hist' = IF Ok(s) /\ a.a \in {"write", "observe", "observe_leaked", "obs_drop", "obs_clone", "disallow",
+                                           "subscribe", "unsubscribe", "state_unsubscribe", "drop", "drop_var"}
+                       THEN Append(Append(hist, a), ReadsOf(Settle(HoldFor(a, OnlyNewRets(s)))))
+                       ELSE Append(hist, a)
             /\ acts' = acts + 1
             /\ UNCHANGED coneB
 
@@ -61,6 +71,10 @@ EffChoices ==
         THEN {<<[e |-> "set", v |-> v, op |-> op, x |-> x]>> :
                 v \in {n \in Nodes : st.def[n].k = "var" /\ Tag(st.def[n].init) = "i"},
                 op \in Ops \cap {"set", "update", "replace"}, x \in {I(1)}}
+        ELSE {})
+  \cup (IF "set_drop" \in Effs
+        THEN {<<[e |-> "set", v |-> v, op |-> "set", x |-> I(1)], [e |-> "drop_var", v |-> v]>> :
+                v \in {n \in Nodes : st.def[n].k = "var" /\ Tag(st.def[n].init) = "i"}}
         ELSE {})
   \cup (IF "read" \in Effs THEN {<<[e |-> "read", o |-> 1]>>} ELSE {})
   \cup (IF "stabilise" \in Effs THEN {<<[e |-> "stabilise"]>>} ELSE {})
@@ -144,6 +158,11 @@ Create ==
                      LET rc == [r |-> "bind", over |-> x,
                                 inner |-> [r |-> "map", f |-> "add", over |-> y]] IN
                      Do([a |-> "bind", in |-> l, recipe |-> rc], ApiBind(st, l, rc))
+             \/ /\ "altmap" \in RecipeKinds
+                /\ \E x \in IntNodes : K = 2 /\
+                     LET rc == [r |-> "alt", alts |-> <<[r |-> "pick", alts |-> <<x, x>>],
+                                                        [r |-> "map", f |-> "add", over |-> x]>>] IN
+                     Do([a |-> "bind", in |-> l, recipe |-> rc], ApiBind(st, l, rc))
              \/ /\ "altchain" \in RecipeKinds
                 /\ \E x \in IntNodes : K = 2 /\
                      LET rc == [r |-> "alt", alts |-> <<[r |-> "pick", alts |-> <<x, x>>],
@@ -183,6 +202,9 @@ ObserveLeaked ==
 DropObs ==
   /\ Quiet /\ Budget
   /\ \E o \in 1..st.no : st.oclones[o] > 0 /\ Do([a |-> "obs_drop", o |-> o], ApiObsDrop(st, o))
+CloneObs ==
+  /\ Quiet /\ Budget /\ "clone" \in Ctors
+  /\ \E o \in 1..st.no : st.oclones[o] = 1 /\ Do([a |-> "obs_clone", o |-> o], ApiObsClone(st, o))
 Disallow ==
   /\ Quiet /\ Budget
   /\ \E o \in 1..st.no : st.oclones[o] > 0 /\ st.ostate[o] \in {"created", "inuse"} /\
@@ -191,10 +213,26 @@ Disallow ==
 NumSubs == LET RECURSIVE Sum(_)
                Sum(o) == IF o = 0 THEN 0 ELSE (st.onext[o] - 1) + Sum(o - 1)
            IN Sum(st.no)
+\* what a subscription handler does besides recording its update
+HandlerEffs(o) ==
+  {<<>>}
+  \* the order in which the handlers of one observer run is unspecified (hash order): a handler that
+  \* ends its own observer is only enumerated as that observer's sole subscription
+  \cup (IF "h_drop" \in Effs /\ st.osubs[o] = <<>> /\ st.onext[o] = 1
+        THEN {<<[e |-> "obs_drop", o |-> o]>>} ELSE {})
+  \cup (IF "h_set" \in Effs
+        THEN {<<[e |-> "set", v |-> v, op |-> "set", x |-> I(1)]>> :
+                v \in {n \in Nodes : st.def[n].k = "var" /\ Tag(st.def[n].init) = "i"}}
+        ELSE {})
+  \* (observers of ONE node run in hash order: cross-observer effects only between different nodes)
+  \cup (IF "h_sub" \in Effs
+        THEN {<<[e |-> "sub", o |-> p]>> : p \in {q \in (1..st.no) \ {o} : st.onode[q] # st.onode[o]}} ELSE {})
 SubscribeA ==
   /\ Quiet /\ Budget /\ NumSubs < MaxSubs
   /\ \E o \in 1..st.no : st.oclones[o] > 0 /\
-       Do([a |-> "subscribe", o |-> o, eff |-> <<>>], Subscribe(st, o, <<>>))
+       ~(\E i \in 1..Len(st.osubs[o]) : st.osubs[o][i].eff # <<>> /\ st.osubs[o][i].eff[1].e = "obs_drop") /\
+       \E eff \in HandlerEffs(o) :
+         Do([a |-> "subscribe", o |-> o, eff |-> eff], Subscribe(st, o, eff))
 UnsubscribeA ==
   /\ Quiet /\ Budget /\ MaxSubs > 0
   /\ \E o \in 1..st.no, to \in 1..st.no : st.oclones[o] > 0 /\ st.onext[to] > 1 /\
@@ -247,7 +285,13 @@ Expect(s) ==
    inv |-> SortedInv(s),
    cone |-> LET c == coneB \cup ConeOf(s, ObservedNodes(s, LinkedObs(s)), {}) IN
             [n \in 1..s.n |-> n \in c],
-   dlv |-> LET d == RefDlv(s)
+   dlvmin |-> LET d == RefDlvMin(s)
+                  RECURSIVE Go(_)
+                  Go(t) == IF t = {} THEN <<>> ELSE
+                           LET m == CHOOSE x \in t : \A y \in t : (x.o < y.o \/ (x.o = y.o /\ x.t <= y.t))
+                           IN <<m>> \o Go(t \ {m})
+              IN Go(d),
+   dlv |-> LET d == RefDlvMax(s)
                RECURSIVE Go(_)
                Go(t) == IF t = {} THEN <<>> ELSE
                         LET m == CHOOSE x \in t : \A y \in t : (x.o < y.o \/ (x.o = y.o /\ x.t <= y.t))
@@ -287,7 +331,7 @@ BeginPoisoned ==
   /\ UNCHANGED coneB
 
 Init == /\ st = InitState(MaxH) /\ hist = <<>> /\ coneB = {} /\ acts = 0
-Next == Create \/ SetMaxH \/ DropHandle \/ Write \/ SubscribeA \/ UnsubscribeA \/ Observe \/ ObserveLeaked \/ DropObs \/ Disallow
+Next == Create \/ CloneObs \/ SetMaxH \/ DropHandle \/ Write \/ SubscribeA \/ UnsubscribeA \/ Observe \/ ObserveLeaked \/ DropObs \/ Disallow
         \/ Begin \/ Step \/ EndA \/ HandlersStep \/ Finish \/ RecoverA \/ BeginPoisoned
 Spec == Init /\ [][Next]_vars
 \* counters and the round number never influence behaviour: keep them out of the fingerprint
